@@ -285,7 +285,11 @@ func runC09(c *Ctx) {
 		}
 		subs := find(fn, callTo(sub))
 		gsub := errNil("chain.Subscribe", subs, 1)
+		// (ending the rescan with an error instead of going on as a
+		// subscriber leaves no queue to clear)
+		c.refusalOK = true
 		c.mustFollowIter(fn, "subscribed (became current)", c.successEdges(gsub), isClear, "blockRetryQueue.clear()", nil, 1)
+		c.refusalOK = false
 		okArg := len(subs) == 1
 		stampHeight := c.field("headerfs", "BlockStamp", "Height")
 		for _, s := range subs {
@@ -631,7 +635,11 @@ func runC09(c *Ctx) {
 				}
 				if loadsField(inputsF)(call.Call.Args[1]) && !ir.DerivesFrom(call.Call.Args[1], func(x ssa.Value) bool { _, isIA := x.(*ssa.IndexAddr); return isIA }) {
 					all := true
+					live := ir.ReachEntry(fn, nil) // without "update == nil" style guard clauses
 					for _, r := range find(fn, isExit) {
+						if !live[r.Block()] {
+							continue
+						}
 						if ir.IsNil(ir.RetVal(r.(*ssa.Return), 1)) && !in.Block().Dominates(r.Block()) {
 							all = false
 						}
